@@ -740,6 +740,19 @@ Proof.
     rewrite firstn_app_2. f_equal. apply IH. lia. }
   apply (G (S (k * S (length base)))). nia.
 Qed.
+(* iter() calls anywhere in the call sequence change nothing: only the next() calls count *)
+Lemma rit_run_spec : forall ops (s : rit (A:=A)), rit_run ops s = rit_trace (count_occ Bool.bool_dec ops true) s.
+Proof.
+  induction ops as [|[|] ops IH]; intros s; cbn [rit_run count_occ]; [reflexivity| |].
+  - destruct (Bool.bool_dec true true) as [_|N]; [|contradiction N; reflexivity].
+    cbn [rit_trace]. destruct (rit_next s) as [v s']. now rewrite IH.
+  - destruct (Bool.bool_dec false true) as [E|_]; [discriminate|]. apply IH.
+Qed.
+
+Lemma repeatable_split_passes (container : bool) (base : list A) ops m :
+  (count_occ Bool.bool_dec ops true <= m)%nat ->
+  rit_run ops (rit_init container base) = firstn (count_occ Bool.bool_dec ops true) (passes (S m) base).
+Proof. intros H. rewrite rit_run_spec. apply repeatable_replays. exact H. Qed.
 End RepeatProofs.
 
 (* ------------------------------------------------------------------ *)
@@ -919,6 +932,9 @@ Lemma gen_rit_next_spec (s : rit (A:=A)) : rit_next_gen s = rit_next s.
 Proof. unfold rit_next_gen, rit_next. destruct (r_iter s); destruct (r_first s); reflexivity. Qed.
 
 Lemma gen_rit_init_spec container (base : list A) : rit_init_gen container base = rit_init container base.
+Proof. reflexivity. Qed.
+
+Lemma gen_rit_iter_spec (s : rit (A:=A)) : rit_iter_gen s = rit_iter s.
 Proof. reflexivity. Qed.
 
 (* one pass of shuffled_clients, in all three classes, is buffered_shuffle over the clients *)
